@@ -183,7 +183,7 @@ CLASS_EXC = {"unbound": "PidRefsDoesNotExist", "orphan": "OrphanPidRefsFileFound
              "object-missing": "RefsFileExistsButCidObjMissing"}
 
 
-@contract("FileHashStore._find_object", cases={"any pid": _pid_case},
+@contract("FileHashStore._find_object", assumes_clean_cwd=True, cases={"any pid": _pid_case},
           props={"*": ("C01", "C03", "C04", "C05", "C17")})
 def _find_object(it, self, pid):
     checkers._check_string(it, pid, VStr("pid"))
